@@ -44,9 +44,22 @@ try:
         res[pid] = {"exit": p.returncode, "wall_s": round(time.time() - t, 1), "summary": lines[-1] if p.returncode != 2 else "\n".join(lines[-3:]),
                     "signatures": sorted(x for x in sigs if x)[:8]}
         print("%s exit=%d %.0fs %s" % (pid, p.returncode, time.time() - t, "; ".join(sorted(x for x in sigs if x))[:300]), flush=True)
-    out = {"mutant": name, "patch": patch, "results": res, "caught_by": [k for k, v in res.items() if v["exit"] == 1],
-           "inconclusive": [k for k, v in res.items() if v["exit"] == 2]}
     os.makedirs("/verif/seeded/%s" % name, exist_ok=True)
+    prev = {}
+    rj = "/verif/seeded/%s/results.json" % name
+    if os.path.exists(rj) and os.environ.get("MX_MERGE", "1") == "1":
+        try:
+            prev = json.load(open(rj)).get("results", {})
+        except Exception:
+            prev = {}
+    head = subprocess.run(["git", "-C", "/verif", "rev-parse", "--short", "HEAD"], capture_output=True, text=True).stdout.strip()
+    for k in res:
+        res[k]["verif_commit"] = head
+    merged = dict(prev)
+    merged.update(res)
+    res = merged
+    out = {"mutant": name, "patch": patch, "results": res, "caught_by": sorted(k for k, v in res.items() if v["exit"] == 1),
+           "inconclusive": sorted(k for k, v in res.items() if v["exit"] == 2)}
     json.dump(out, open("/verif/seeded/%s/results.json" % name, "w"), indent=1)
     print("CAUGHT BY:", out["caught_by"], "INCONCLUSIVE:", out["inconclusive"])
 finally:
